@@ -324,6 +324,40 @@ def c04_arith(R):
                 verify(R, "C04.arith", fn, run, label=f"{kind}{n} {sp} {kind}{n}")
                 if kind == "float" and sp in "+-":
                     verify(R, "C04.arith", fn, vm_c.ieee(run), label=f"{kind}{n} {sp} {kind}{n},ieee")
+        # operands of different component types: the int vector is converted, then the operator is applied component-wise -- in both orders
+        for sp, opn in (("+", "ADD"), ("-", "SUB"), ("<", "CMP_LT"), (">=", "CMP_GE")):
+            for order in ("int-float", "float-int"):
+                lt, rt_ = (f"int{n}", f"float{n}") if order == "int-float" else (f"float{n}", f"int{n}")
+                res = f"int{n}" if opn.startswith("CMP") else f"float{n}"
+                src = f"export function f({lt} a, {rt_} b) -> {res} {{ return (a {sp} b); }}"
+                r, exc = program(src)
+                if r is None:
+                    R.check(f"C04.arith[{lt} {sp} {rt_}]", fn, False, detail=f"rejected {exc!r}")
+                    continue
+
+                def run_mixed(ctx, r=r, n=n, opn=opn, order=order):
+                    a = symvec(ctx, "a", n, "i" if order == "int-float" else "f")
+                    b = symvec(ctx, "b", n, "f" if order == "int-float" else "i")
+                    got, _ = invoke(r, "f", a=a, b=b)
+                    want = [irsem.binary(opn, x.t, y.t, False) for x, y in zip(a, b)]
+                    return [("value", vm_c.veq(got, want))]
+
+                verify(R, "C04.arith", fn, run_mixed, lambda m, c, src=src, n=n: script("""
+                    import io, contextlib
+                    from nsl import Compiler, LinearIR, VM
+                    src, n = {{src}}, {{n}}
+                    with contextlib.redirect_stdout(io.StringIO()):
+                        r = Compiler.Compiler().Compile(src)
+                    l = LinearIR.Linker(); l.AddModule(r.IRModule)
+                    iv, fv = [1, 2, 3, 4][:n], [0.5, 1.25, 2.75, 4.0][:n]
+                    a, b = (iv, fv) if src.split('(')[1].startswith('int') else (fv, iv)
+                    got = VM.VirtualMachine(l.Link()).Invoke('f', a=a, b=b)
+                    import operator
+                    o = {'+': operator.add, '-': operator.sub, '<': lambda x, y: int(x < y), '>=': lambda x, y: int(x >= y)}[src.split('(a ')[1].split(' b)')[0]]
+                    want = [o(x, y) for x, y in zip(a, b)]
+                    print(src, a, b, '->', got, 'expected', want)
+                    if got != want: print('REPLAY-CONFIRMED')
+                    """, src=src, n=n), label=f"{lt} {sp} {rt_}")
         for sp, opn in (("*", "MUL"), ("/", "DIV")):
             src = f"export function f(float{n} a, float s) -> float{n} {{ return (a {sp} s); }}"
             r, exc = program(src)
